@@ -133,6 +133,14 @@ const knownRestartDrain = "restart-during-drain"
 // is on lnsUDP becomes a restart after run 1 is over.
 const knownListenRestart = "shutdown-closes-socket-of-next-listen"
 
+// knownStaleSocket (round 8, found by the thorough tier while remark 1 was being reproduced): the
+// mirror image - ShutdownContext also acts on a socket that an EARLIER run left in the Server value.
+// Run 1 (ListenAndServe udp) is still waited for by its Shutdown, run 2 is ListenAndServe tcp:
+// Server.PacketConn still holds the socket of run 1, and the Shutdown of run 2 closes it under the
+// handlers of run 1. While it is live a drawn restart(shutting) lnsUDP -> lnsTCP becomes a restart
+// after run 1 is over.
+const knownStaleSocket = "shutdown-closes-socket-of-draining-run"
+
 // knownSdInsideFailingStart (round 8, remark 3): a Shutdown that gets in between the start's unlock
 // and serveUDP's "Reader has no ReadPacketConn" return waits for ever. While it is live the
 // generator makes that Shutdown wait for the start to return (Sd = "").
@@ -396,6 +404,9 @@ func drawRestart(t *rapid.T, s *Scenario) {
 		}
 		if eff2 == "lnsUDP" && pbt.Known(knownListenRestart) {
 			pbt.Excluded(knownListenRestart)
+			rs.When = "complete"
+		} else if s.Transport == "lnsUDP" && eff2 == "lnsTCP" && pbt.Known(knownStaleSocket) {
+			pbt.Excluded(knownStaleSocket)
 			rs.When = "complete"
 		}
 	}
